@@ -296,9 +296,16 @@ func (s *Stage) Receive(file *sts.Partial, reader io.Reader) (err error) {
 	if _, err = fh.Seek(part.Beg, 0); err != nil {
 		return
 	}
-	_, err = io.Copy(fh, reader)
+	n, err := io.Copy(fh, reader)
 	fh.Close()
 	if err != nil {
+		return
+	}
+	if n != part.End-part.Beg {
+		// The reader ended early without an error; don't record a byte range
+		// that wasn't actually written
+		err = fmt.Errorf("short read for part %d-%d of %s: got %d bytes",
+			part.Beg, part.End, file.Name, n)
 		return
 	}
 
